@@ -1338,6 +1338,12 @@ func (r *Regex) Split(s string, n int) []string {
 		return nil
 	}
 
+	// stdlib compatibility: regexp.Split yields [""] for an empty s only when the
+	// expression text is non-empty; the empty expression yields zero substrings.
+	if len(s) == 0 && len(r.pattern) == 0 {
+		return []string{}
+	}
+
 	indices := r.FindAllStringIndex(s, -1)
 	if len(indices) == 0 {
 		// No matches, return entire string
@@ -1355,6 +1361,11 @@ func (r *Regex) Split(s string, n int) []string {
 
 	lastEnd := 0
 	for _, idx := range indices {
+		// Stop once only the unsplit remainder is left to add (n == 1 splits nothing).
+		if n > 0 && len(result) >= n-1 {
+			break
+		}
+
 		// Skip empty match at the beginning (position 0 with zero-width match)
 		// This matches stdlib behavior: Split("", "abc") = ["a", "b", "c"], not ["", "a", "b", "c", ""]
 		if lastEnd == 0 && idx[0] == 0 && idx[1] == 0 {
@@ -1369,13 +1380,6 @@ func (r *Regex) Split(s string, n int) []string {
 		// Add substring before match
 		result = append(result, s[lastEnd:idx[0]])
 		lastEnd = idx[1]
-
-		// Check if we've reached the limit (but need room for final element)
-		if n > 0 && len(result) >= n-1 {
-			// Add the rest as the final element
-			result = append(result, s[lastEnd:])
-			return result
-		}
 	}
 
 	// Add remaining text after last match
